@@ -23,7 +23,7 @@ RULE = ("cases: general trees (windows, failures, aborts, nesting; AbstractJob s
         "or a cancelled job, together with a finished one; distinct = distinct scenario digest")
 ASSUMPTIONS = RT_ASSUMPTIONS
 
-PROFILE = S.GENERAL.but(p_block=6, p_coroutine=50, p_raise=22, p_critical=30, p_nested=24,
+PROFILE = S.GENERAL.but(p_rerun=8, p_block=6, p_coroutine=50, p_raise=22, p_critical=30, p_nested=24,
                         windows=((None, 3), (0, 1), (1, 3), (2, 3), (3, 1)),
                         p_wild=25, p_forever=14)
 
@@ -53,6 +53,13 @@ def oracle(case, trace, ix, res):
         seq = sample['seq']
         queued = any_finished = cancelled = False
         for who, st in sample['jobs'].items():
+            parent = ix.parent.get(who)
+            if getattr(trace, 'rerun', False) and parent is not None:
+                # second run of the same objects: a job's state is reset when ITS scheduler
+                # begins its run; until then it legitimately shows the first run's outcome
+                begun = ix.enter(parent['id'])
+                if begun is None or begun['seq'] >= seq:
+                    continue
             if ix.parent.get(who) is None and who == case['id']:
                 # the top-level scheduler is not a job of anything: never scheduled
                 created, entered, ex, cancel = False, False, None, False
